@@ -239,14 +239,20 @@ fn time_src_job(src: Src, len: usize, devs: u32, jumps: Vec<u64>) -> Job {
       .map(V::from)
       .on_error_map(inf)
       .actual_subscribe(other.clone());
-    r.subscribe(&pipe);
+    // the observable value may be built some ticks before it is subscribed (a
+    // stored pipeline, a clone subscribed later): periods count from subscription
+    let op = build_local(&pipe, &r.cx);
+    let t0 = ch.choose(3) as u64;
+    ch.label(|| format!("subscribed {t0} ticks after the observable was built"));
+    r.world.skew(t0);
+    r.sub = Sub::L(op.actual_subscribe(r.probe.clone()));
     // the executor may get its first chance to poll anything only some ticks
     // after the subscription was made
     let late = ch.choose(3) as u64;
     ch.label(|| format!("executor starts {late} ticks after subscription"));
     r.world.skew(late);
     r.world.settle();
-    let mut hist: Vec<String> = vec![format!("late-start({late})")];
+    let mut hist: Vec<String> = vec![format!("built-then-subscribed-at({t0})"), format!("late-start({late})")];
     // interval arms its first timer at subscription: a late start that is still
     // before the first due time must not shift any tick. One-shot timers arm on
     // their first poll, for them a late start counts like a jump.
@@ -277,7 +283,7 @@ fn time_src_job(src: Src, len: usize, devs: u32, jumps: Vec<u64>) -> Job {
         }
         Act::Extra(_) => unreachable!(),
       }
-      check_time_src(obs, &src, &r.probe, &hist, ch.deviations() == 0 && !jumped, r.world.ready_len() == 0);
+      check_time_src(obs, &src, &r.probe, &hist, ch.deviations() == 0 && !jumped, r.world.ready_len() == 0, t0);
       if !obs.viol.is_empty() {
         break;
       }
@@ -294,7 +300,7 @@ fn time_src_job(src: Src, len: usize, devs: u32, jumps: Vec<u64>) -> Job {
   .devs(devs)
 }
 
-fn check_time_src(obs: &mut Obs, src: &Src, probe: &Probe, hist: &[String], prompt: bool, quiescent: bool) {
+fn check_time_src(obs: &mut Obs, src: &Src, probe: &Probe, hist: &[String], prompt: bool, quiescent: bool, t0: u64) {
   obs.checks += 1;
   let recs = probe.recs();
   let now = world::now();
@@ -311,9 +317,13 @@ fn check_time_src(obs: &mut Obs, src: &Src, probe: &Probe, hist: &[String], prom
   };
   match src {
     Src::Interval(p) | Src::IntervalAt(_, p) => {
+      // t0 = time of subscription. The `_at` forms read their instant against the
+      // real clock, which stands still in the virtual world (a tick is 1000 s): the
+      // time remaining until the instant is the same whenever it is computed, so
+      // for them the gap between building and subscribing only shifts everything
       let first_due: u64 = match src {
-        Src::Interval(p) => *p,
-        Src::IntervalAt(off, _) => (*off).max(0) as u64,
+        Src::Interval(p) => t0 + *p,
+        Src::IntervalAt(off, _) => t0 + (*off).max(0) as u64,
         _ => unreachable!(),
       };
       // an instant that is not in the future means: fire at once
@@ -345,8 +355,8 @@ fn check_time_src(obs: &mut Obs, src: &Src, probe: &Probe, hist: &[String], prom
     }
     Src::Timer(v, _) | Src::TimerAt(v, _) => {
       let due: u64 = match src {
-        Src::Timer(_, d) => *d,
-        Src::TimerAt(_, off) => (*off).max(0) as u64,
+        Src::Timer(_, d) => t0 + *d,
+        Src::TimerAt(_, off) => t0 + (*off).max(0) as u64,
         _ => unreachable!(),
       };
       let notes: Vec<Note> = recs.iter().map(|x| x.note.clone()).collect();
@@ -367,6 +377,42 @@ fn check_time_src(obs: &mut Obs, src: &Src, probe: &Probe, hist: &[String], prom
     }
     _ => {}
   }
+}
+
+/// The virtual clock drives the timers, not `Instant::now()`. A source that
+/// measures its first period against the real clock from the moment it was
+/// *built* is invisible on the virtual time line, but not in what it asks the
+/// timer seam for: the observable is built, real time passes, it is subscribed,
+/// and the first timer request must still be the full configured duration.
+fn real_gap_job(src: Src) -> Job {
+  let pipe = Pipe::S(src.clone());
+  Job::new(format!("{} built, 12 ms of real time pass, then subscribed", pipe.show()), move |_ch, obs| {
+    let mut r = Run::prepare(1, Form::Local);
+    let op = build_local(&pipe, &r.cx);
+    std::thread::sleep(std::time::Duration::from_millis(12));
+    r.sub = Sub::L(op.actual_subscribe(r.probe.clone()));
+    r.world.settle();
+    r.world.drain_fifo(50);
+    let want = match &src {
+      Src::Interval(p) => world::ticks(*p),
+      Src::Timer(_, d) => world::ticks(*d),
+      _ => unreachable!(),
+    };
+    obs.checks += 1;
+    let log = world::timer_log();
+    match log.first() {
+      Some(req) if req.dur == want => {}
+      other => obs.fail(
+        format!("c08:first-period-not-from-subscription:{}", super::c03::src_name(&src)),
+        format!(
+          "{src:?} was built 12 ms before it was subscribed; its first timer request should be the full {want:?}, it was {:?}",
+          other.map(|r| r.dur)
+        ),
+      ),
+    }
+    obs.delivered = 1;
+    obs.note_outcome(&log.first().map(|r| r.dur));
+  })
 }
 
 fn relay_job(kind: Relay, script_len: usize, len: usize, devs: u32) -> Job {
@@ -530,6 +576,9 @@ pub fn plan(tier: Tier) -> Plan {
     jobs.push(relay_job(k, slen, rlen, devs));
   }
   // long bursts: many items ready within one poll of the relay task
+  for src in [Src::Interval(1), Src::Interval(2), Src::Timer(7, 1)] {
+    jobs.push(real_gap_job(src));
+  }
   for n in [31usize, 32, 33, 100] {
     jobs.push(burst_job(n));
   }
